@@ -24,9 +24,16 @@
 //!                while condition, see `SHAPES`); opts: r (returns int), d<uses> (parameters whose default value reads
 //!                these resources), fd (declared before all definitions; also for entries)
 //!   entry    : name:stage:uses:calls:statics:x.y.z|-[:opts]   opts: i<list> (s_init globals touched), nt<k> (spelling of
-//!                the numthreads arguments: 1 = named constant, 2 = arithmetic, 3 = a second, different attribute first)
+//!                the numthreads arguments: 1 = named constant, 2 = arithmetic, 3 = a second, different attribute first
+//!                -- on the definition and on the forward declaration; 4 = the second attribute on the forward declaration
+//!                only (needs fd): the front end never parses the attributes of a declaration, the file is accepted),
+//!                lo (late overload: `void <name>(int p0) { }` is defined at the very end of the file, after every
+//!                Pipeline block: the entry point lookup of a block sees the registry of its moment)
 //!   pipe     : name:dflt|-:entry indices[:opts]   opts: gs<k> | gb<k> (graphics state property set k; gb = the set holds
-//!                blend state blocks only, which a compute pipeline accepts), de (DefaultBindGroup written as an expression)
+//!                blend state blocks only, which a compute pipeline accepts), de (DefaultBindGroup written as an expression),
+//!                b (the block is written *before* the entry point definitions it would follow: before all of them in the
+//!                plain layout, before the ones it is the first to mention in layout 1 -- the functions are unknown or
+//!                only declared when the block is met)
 //!   The request is self-contained: the shader file is rendered from it (no seed), so shrinking and the witness search
 //!   can edit requests.
 use crate::progen;
@@ -278,6 +285,8 @@ pub struct XFn {
     pub nt: u32,
     /// a forward declaration precedes all function definitions
     pub fd: bool,
+    /// entries: an overload of the same name is defined at the end of the file
+    pub lo: bool,
 }
 
 #[derive(Clone, Debug, Default)]
@@ -288,6 +297,20 @@ pub struct XInit {
     pub statics: Vec<usize>,
 }
 
+/// an entry point definition or a `Pipeline` block (by index)
+#[derive(Clone, Copy, PartialEq, Debug)]
+pub enum Root {
+    Entry(usize),
+    Pipe(usize),
+}
+
+/// the function a stage property denotes
+#[derive(Clone, Copy, PartialEq, Debug)]
+pub enum StageFn {
+    Entry(usize),
+    Helper(usize),
+}
+
 #[derive(Clone, Debug)]
 pub struct XPipe {
     pub name: String,
@@ -295,6 +318,8 @@ pub struct XPipe {
     pub stages: Vec<usize>,
     pub gstate: u32,
     pub dexpr: bool,
+    /// the block precedes the entry point definitions it would otherwise follow
+    pub before: bool,
 }
 
 #[derive(Clone, Debug)]
@@ -369,7 +394,7 @@ pub fn from_program(p: &progen::Program) -> Case {
         pipes: p
             .pipes
             .iter()
-            .map(|pp| XPipe { name: pp.name.clone(), dflt: pp.default_group, stages: pp.stages.clone(), gstate: 0, dexpr: false })
+            .map(|pp| XPipe { name: pp.name.clone(), dflt: pp.default_group, stages: pp.stages.clone(), gstate: 0, dexpr: false, before: false })
             .collect(),
     }
 }
@@ -497,6 +522,9 @@ impl Case {
                 if e.fd {
                     o.push("fd".to_string());
                 }
+                if e.lo {
+                    o.push("lo".to_string());
+                }
                 with_opts(base, o)
             })
             .collect();
@@ -512,6 +540,9 @@ impl Case {
                 }
                 if p.dexpr {
                     o.push("de".to_string());
+                }
+                if p.before {
+                    o.push("b".to_string());
                 }
                 with_opts(base, o)
             })
@@ -693,12 +724,13 @@ impl Case {
             for o in opts(&p, 6)? {
                 match o.as_str() {
                     "fd" => e.fd = true,
+                    "lo" => e.lo = true,
                     s if s.starts_with("nt") => e.nt = s[2..].parse().ok()?,
                     s if s.starts_with('i') => e.inits = idx(&s[1..])?,
                     _ => return None,
                 }
             }
-            if e.nt > 3 || (e.nt != 0 && e.threads.is_none()) {
+            if e.nt > 4 || (e.nt != 0 && e.threads.is_none()) || (e.nt == 4 && !e.fd) {
                 return None;
             }
             entries.push(e);
@@ -709,10 +741,11 @@ impl Case {
             if p.len() < 3 {
                 return None;
             }
-            let mut pp = XPipe { name: p[0].to_string(), dflt: optn(p[1])?, stages: idx(p[2])?, gstate: 0, dexpr: false };
+            let mut pp = XPipe { name: p[0].to_string(), dflt: optn(p[1])?, stages: idx(p[2])?, gstate: 0, dexpr: false, before: false };
             for o in opts(&p, 3)? {
                 match o.as_str() {
                     "de" => pp.dexpr = true,
+                    "b" => pp.before = true,
                     s if s.starts_with("gs") || s.starts_with("gb") => {
                         pp.gstate = s[2..].parse().ok()?;
                         if pp.gstate == 0 || super::state::graphics_props_strict(pp.gstate) != s.starts_with("gs") {
@@ -846,12 +879,14 @@ impl Case {
         s
     }
 
-    fn numthreads_attr(&self, k: usize, e: &XFn) -> String {
+    /// the numthreads attributes of entry `k`, as written on its forward declaration (`decl`) or on its definition
+    fn numthreads_attr(&self, k: usize, e: &XFn, decl: bool) -> String {
         let Some(t) = e.threads else { return String::new() };
         match e.nt {
             1 => format!("[numthreads(c_nt{}, {}, {})]\n", k, t.1, t.2),
             2 => format!("[numthreads(c_nt{} * 1, ({} + 1) - 1, {})]\n", k, t.1, t.2),
             3 => format!("[numthreads({}, {}, {})]\n[numthreads({}, {}, {})]\n", t.0 + 1, t.1, t.2, t.0, t.1, t.2),
+            4 if decl => format!("[numthreads({}, {}, {})]\n[numthreads({}, {}, {})]\n", t.0 + 1, t.1, t.2, t.0, t.1, t.2),
             _ => format!("[numthreads({}, {}, {})]\n", t.0, t.1, t.2),
         }
     }
@@ -981,10 +1016,10 @@ impl Case {
             .flat_map(|p| p.stages.iter().copied())
             .collect();
         // (attributes, signature, statements after the generated body)
-        let entry_sig = |k: usize| -> (String, String, &'static str) {
+        let entry_sig = |k: usize, decl: bool| -> (String, String, &'static str) {
             let e = &self.entries[k];
             let n = &e.name;
-            let nt = self.numthreads_attr(k, e);
+            let nt = self.numthreads_attr(k, e, decl);
             match e.stage.as_deref().unwrap_or("") {
                 "Compute" => (nt, format!("void {}(uint3 dtid : SV_DispatchThreadID)", n), ""),
                 "Vertex" => (nt, format!("void {}(uint vid : SV_VertexID, out float4 o_pos : SV_Position)", n), "    o_pos = float4(0, 0, 0, 1);\n"),
@@ -1008,7 +1043,7 @@ impl Case {
         }
         for k in 0..self.entries.len() {
             if self.entries[k].fd {
-                let (attrs, sig, _) = entry_sig(k);
+                let (attrs, sig, _) = entry_sig(k, true);
                 s.push_str(&format!("{}{};\n", attrs, sig));
             }
         }
@@ -1038,7 +1073,7 @@ impl Case {
             s.push_str(&format!("static int s_init{} = {};\n", k, terms.join(" + ")));
         }
         let emit_entry = |s: &mut String, k: usize| {
-            let (attrs, sig, tail) = entry_sig(k);
+            let (attrs, sig, tail) = entry_sig(k, false);
             s.push_str(&format!("{}{} {{\n{}{}}}\n", attrs, sig, self.body(&self.entries[k]), tail));
         };
         let emit_pipe = |s: &mut String, pipe: &XPipe| {
@@ -1059,31 +1094,85 @@ impl Case {
             }
             s.push_str("}\n");
         };
+        for root in self.file_order() {
+            match root {
+                Root::Entry(k) => emit_entry(&mut s, k),
+                Root::Pipe(i) => emit_pipe(&mut s, &self.pipes[i]),
+            }
+        }
+        // late overloads of entry points: registered after every Pipeline block
+        for e in self.entries.iter().filter(|e| e.lo) {
+            s.push_str(&format!("void {}(int p0) {{\n}}\n", e.name));
+        }
+        s
+    }
+
+    /// the entry point definitions and `Pipeline` blocks in the order the file has them (after the forward
+    /// declarations, the helpers and the s_init globals; before the late overloads)
+    pub fn file_order(&self) -> Vec<Root> {
+        let mut out = Vec::new();
         if self.layout == 1 {
             let mut done = vec![false; self.entries.len()];
-            for pipe in &self.pipes {
+            for (i, pipe) in self.pipes.iter().enumerate() {
+                if pipe.before {
+                    out.push(Root::Pipe(i));
+                }
                 for k in &pipe.stages {
                     if !done[*k] {
                         done[*k] = true;
-                        emit_entry(&mut s, *k);
+                        out.push(Root::Entry(*k));
                     }
                 }
-                emit_pipe(&mut s, pipe);
+                if !pipe.before {
+                    out.push(Root::Pipe(i));
+                }
             }
             for k in 0..self.entries.len() {
                 if !done[k] {
-                    emit_entry(&mut s, k);
+                    out.push(Root::Entry(k));
                 }
             }
         } else {
-            for k in 0..self.entries.len() {
-                emit_entry(&mut s, k);
-            }
-            for pipe in &self.pipes {
-                emit_pipe(&mut s, pipe);
+            out.extend((0..self.pipes.len()).filter(|i| self.pipes[*i].before).map(Root::Pipe));
+            out.extend((0..self.entries.len()).map(Root::Entry));
+            out.extend((0..self.pipes.len()).filter(|i| !self.pipes[*i].before).map(Root::Pipe));
+        }
+        out
+    }
+
+    /// the function a stage property `<Stage>Shader = <name of entry k>` of pipeline `pi` denotes.  A name is resolved
+    /// where it is written: among the functions the file has declared so far -- every helper, and the entry points
+    /// defined (or forward declared) before the block.  When that is exactly one function with a body, it is the stage's
+    /// function (normally entry `k` itself; a helper of that name when the block stands before the entry point's
+    /// definition); in every other case the file is refused and the answer does not matter (entry `k`).
+    pub fn stage_fn(&self, pi: usize, k: usize) -> StageFn {
+        let name = &self.entries[k].name;
+        let order = self.file_order();
+        let Some(at) = order.iter().position(|r| *r == Root::Pipe(pi)) else { return StageFn::Entry(k) };
+        let mut cands: Vec<StageFn> = (0..self.helpers.len()).filter(|h| &self.helpers[*h].name == name).map(StageFn::Helper).collect();
+        for (e, x) in self.entries.iter().enumerate() {
+            let defined_before = order[..at].contains(&Root::Entry(e));
+            if &x.name == name && (defined_before || x.fd) {
+                if !defined_before {
+                    return StageFn::Entry(k); // declared only: refused
+                }
+                cands.push(StageFn::Entry(e));
             }
         }
-        s
+        if cands.len() == 1 { cands[0] } else { StageFn::Entry(k) }
+    }
+
+    /// the function behind a stage
+    pub fn stage_xfn(&self, f: StageFn) -> &XFn {
+        match f {
+            StageFn::Entry(k) => &self.entries[k],
+            StageFn::Helper(h) => &self.helpers[h],
+        }
+    }
+
+    /// the functions the stages of pipeline `pi` denote, in property order
+    pub fn stage_fns(&self, pi: usize) -> Vec<StageFn> {
+        self.pipes[pi].stages.iter().map(|k| self.stage_fn(pi, *k)).collect()
     }
 
     /// resources some stage entry point of the pipeline can reach (the request's own use graph: bodies, default
@@ -1095,11 +1184,19 @@ impl Case {
         let mut hstack: Vec<usize> = Vec::new();
         let mut istack: Vec<usize> = Vec::new();
         if let Some(p) = pipe {
+            let pi = self.pipes.iter().position(|q| std::ptr::eq(q, p));
             for k in &p.stages {
-                let e = &self.entries[*k];
-                out.extend(e.uses.iter().map(|u| u.0));
-                hstack.extend(e.calls.iter().copied());
-                istack.extend(e.inits.iter().copied());
+                // the function the property denotes where the block stands (a helper, when the block precedes the
+                // definition of the entry point and a helper has its name)
+                match pi.map(|pi| self.stage_fn(pi, *k)).unwrap_or(StageFn::Entry(*k)) {
+                    StageFn::Entry(e) => {
+                        let e = &self.entries[e];
+                        out.extend(e.uses.iter().map(|u| u.0));
+                        hstack.extend(e.calls.iter().copied());
+                        istack.extend(e.inits.iter().copied());
+                    }
+                    StageFn::Helper(h) => hstack.push(h),
+                }
             }
         }
         loop {
